@@ -280,7 +280,7 @@ Definition heads (t : str) : Prop :=
   hdA fol t = true /\ hd_is is_digit t = false /\ hd_is (N.eqb 33) t = false /\ hd2_is 46 is_digit t = false.
 
 (* B is the language of what may follow the dev component: for Version it is  local? whitespace  (L_loc below), for
-   specifier operators that admit no local version it is whitespace only.  All that matters is how its strings start:
+   specifier operators that take no local version it is whitespace only.  All that matters is how its strings start:
    with '+', with whitespace, or not at all. *)
 Section Base.
 Variable B : str -> Prop.
